@@ -28,19 +28,20 @@
 (* counterexample C05_mc_oci_fixed.cfg).                                   *)
 (***************************************************************************)
 EXTENDS Integers, Sequences, FiniteSets, TLC
-CONSTANTS Procs, Len, FixedTmp
+CONSTANTS Procs, BlobLen, FixedTmp
 
-Good == [i \in 1..Len |-> i]                 \* the blob of digest D
-Bad == [i \in 1..Len |-> 0]                  \* other bytes of the same length
-Short == SubSeq(Good, 1, Len - 1)            \* the blob with its end missing
+Good == [i \in 1..BlobLen |-> i]                 \* the blob of digest D
+Bad == [i \in 1..BlobLen |-> 0]                  \* other bytes of the same length
+Short == SubSeq(Good, 1, BlobLen - 1)            \* the blob with its end missing
 H(c) == c
-Confs == [src : {Good, Bad, Short}, decl : {"D", "none"}, brk : 0..Len]   \* brk: unit whose read fails (0 never)
+Confs == [src : {Good, Bad, Short}, decl : {"D", "none"}, brk : 0..BlobLen]   \* brk: unit whose read fails (0 never)
 
 VARIABLES cf, pc, dir, ino, fd, wr, res
 vars == <<cf, pc, dir, ino, fd, wr, res>>
 
-TmpName(p) == IF FixedTmp /\ cf[p].decl = "D" THEN <<"tmp", "D">> ELSE <<"tmp", p>>
-Final(p) == IF cf[p].decl = "D" THEN <<"blob", H(Good)>> ELSE <<"blob", H(cf[p].src)>>
+\* names are <<kind, number, content>> so that all of them compare
+TmpName(p) == IF FixedTmp /\ cf[p].decl = "D" THEN <<"tmp", 0, <<>>>> ELSE <<"tmp", p, <<>>>>
+Final(p) == IF cf[p].decl = "D" THEN <<"blob", 0, H(Good)>> ELSE <<"blob", 0, H(cf[p].src)>>
 NewIno == Cardinality(DOMAIN ino) + 1
 Pad(s, n) == IF Len(s) >= n THEN s ELSE s \o [i \in 1..(n - Len(s)) |-> -1]
 SetAt(s, i, v) == [Pad(s, i) EXCEPT ![i] = v]
@@ -102,5 +103,5 @@ MismatchIsError == \A p \in Procs : (pc[p] = "done" /\ cf[p].decl = "D" /\ cf[p]
 \* O3
 WellFormedSucceeds == \A p \in Procs : (pc[p] = "done" /\ cf[p].brk = 0 /\ (cf[p].decl = "none" \/ cf[p].src = Good)) => res[p] = "ok"
 \* every digest named file holds that digest's content once nobody writes any more
-NamesMatch == AllDone => \A n \in DOMAIN dir : n[1] = "blob" => H(ino[dir[n]]) = n[2]
+NamesMatch == AllDone => \A n \in DOMAIN dir : n[1] = "blob" => H(ino[dir[n]]) = n[3]
 =============================================================================
